@@ -314,7 +314,7 @@ pub fn eval(ctx: &mut Ctx, op: &str, args: &[Sexp]) -> Option<String> {
                     ctx.oracle_fail(what);
                 }
             }
-            Some(de_str(&b))
+            Some(format!("{} used={}", de_str(&b), used))
         }
         _ => None,
     }
